@@ -142,11 +142,13 @@ pub fn dml_explorations(tier: Tier) -> Vec<(&'static str, Vec<Op>, usize)> {
     mix.push(Op::DropReopen);
     mix.push(Op::Flush);
     vec![
-        ("all-tables", mix, if t { 7 } else { 6 }),
-        ("T1", t1_ops, if t { 9 } else { 7 }),
-        ("T2+T1", t2_ops, if t { 9 } else { 7 }),
-        ("T3-nullable-string-key", t3_ops, if t { 9 } else { 7 }),
-        ("T4-cross-type-attributes", t4_ops, if t { 9 } else { 7 }),
+        ("all-tables", mix, if t { 8 } else { 6 }),
+        ("T1", t1_ops, if t { 12 } else { 7 }),
+        ("T2+T1", t2_ops, if t { 11 } else { 7 }),
+        // the reachable spaces of these two are small: explored until the
+        // frontier is empty (or the bound)
+        ("T3-nullable-string-key", t3_ops, if t { 40 } else { 12 }),
+        ("T4-cross-type-attributes", t4_ops, if t { 40 } else { 12 }),
     ]
 }
 
@@ -409,8 +411,8 @@ pub fn run_c01(tier: Tier) -> i32 {
         alphabet,
         probes: vec![],
         stream_names: vec![],
-        max_depth: if tier.thorough() { 8 } else { 6 },
-        wall_cap: Duration::from_secs(if tier.thorough() { 900 } else { 60 }),
+        max_depth: if tier.thorough() { 7 } else { 6 },
+        wall_cap: Duration::from_secs(if tier.thorough() { 1500 } else { 60 }),
         monitors: Monitors { roundtrip: true, ..Monitors::default() },
         merge_audits: if tier.thorough() { 200 } else { 0 },
         nodedup_depth: 0,
@@ -443,7 +445,7 @@ pub fn run_c08(tier: Tier) -> i32 {
         del("T2", None),
         Op::Reopen,
     ];
-    let template = Config { alphabet: sharing, max_depth: if tier.thorough() { 9 } else { 6 }, seed: None, setup: vec![], probes: vec![], stream_names: vec![], ..cfgs[0].1 };
+    let template = Config { alphabet: sharing, max_depth: if tier.thorough() { 11 } else { 6 }, seed: None, setup: vec![], probes: vec![], stream_names: vec![], ..cfgs[0].1 };
     cfgs.push(("catalog-and-cross-table-string-sharing".to_string(), template));
     // text in code pages other than UTF-8: encoded lengths differ from UTF-8 lengths
     let cp_ops = vec![
@@ -459,7 +461,7 @@ pub fn run_c08(tier: Tier) -> i32 {
         Op::Reopen,
         Op::Flush,
     ];
-    let template = Config { alphabet: cp_ops, max_depth: if tier.thorough() { 8 } else { 6 }, seed: None, setup: vec![], probes: vec![], stream_names: vec![], ..cfgs[0].1 };
+    let template = Config { alphabet: cp_ops, max_depth: if tier.thorough() { 12 } else { 6 }, seed: None, setup: vec![], probes: vec![], stream_names: vec![], ..cfgs[0].1 };
     cfgs.push(("database-code-pages".to_string(), template));
     finish_e1_multi(cfgs, rep, "the bytes saved after every prefix of every explored sequence, in all three close modes, are decoded by the independent decoder: whole rows of the dictated widths, offset-binary integers, live references, catalog = existing tables with columns 1..n, refcount(entry) = referring cells in all tables, unused entries empty, no live empty entry; decoded rows = model rows. distinct_nontrivial = distinct states")
 }
